@@ -479,3 +479,63 @@ B("benign-finally-order", ["C17"], PJ,
   """            self.organization.reverse_dependencies()
             self.workflow.reverse_dependencies()
 """)
+
+# ---------------------------------------------------------------------------------------- C09
+M("C09-finish-candidates-set", "C09", "R9.1", WF,
+  """            working_and_zero_task_list = list(filter(""",
+  """            working_and_zero_task_list = set(filter(""")
+M("C09-pert-set-again", "C09", "R9.1", WF,
+  """        input_task_set = []
+        for task in self.task_list:
+            task.est = time
+            if len(task.input_task_list) == 0:
+                task.eft = time + task.remaining_work_amount
+                input_task_set.append(task)""",
+  """        input_task_set = set()
+        for task in self.task_list:
+            task.est = time
+            if len(task.input_task_list) == 0:
+                task.eft = time + task.remaining_work_amount
+                input_task_set.add(task)""")
+M("C09-key-by-id", "C09", "R9.2", PR,
+  """        task_list = sorted(task_list, key=lambda task: task.est)""",
+  """        task_list = sorted(task_list, key=lambda task: (task.est, id(task)))""")
+M("C09-alias-default-again", "C09", "R9.3", PJ,
+  """        self.absence_time_list = list(absence_time_list)""",
+  """        self.absence_time_list = absence_time_list""")
+M("C09-init-forgets-placed-list", "C09", "R9.4", WP,
+  """        if state_info:
+            self.placed_component_list = []
+""", "")
+M("C09-is-for-ids", "C09", "R9.2", PR,
+  """key=lambda worker: (worker.cost_per_time, worker.main_workplace_id != target_workplace_id, worker.main_workplace_id is not None)""",
+  """key=lambda worker: (worker.cost_per_time, worker.main_workplace_id is not target_workplace_id, worker.main_workplace_id is not None)""")
+M("C09-ready-gate-reads-ready", "C09", "R9.1", WF,
+  """                if dependency == BaseTaskDependency.FS:
+                    if input_task.state == BaseTaskState.FINISHED:
+                        ready = True""",
+  """                if dependency == BaseTaskDependency.FS:
+                    if input_task.state == BaseTaskState.FINISHED or input_task.state == BaseTaskState.READY:
+                        ready = True""")
+M("C09-class-level-cache", "C09", "R9.3", WF,
+  """class BaseWorkflow(object, metaclass=abc.ABCMeta):
+""",
+  """class BaseWorkflow(object, metaclass=abc.ABCMeta):
+    _pert_cache = {}
+""")
+M("C09-hidden-counter", "C09", "R9.4", WF,
+  """        self.__set_est_eft_data(time)
+        self.__set_lst_lft_criticalpath_data(time)""",
+  """        self.pert_updates = getattr(self, 'pert_updates', 0) + 1
+        self.__set_est_eft_data(time)
+        self.__set_lst_lft_criticalpath_data(time)""")
+M("C09-argmax-object", "C09", "R9.1", WF,
+  """        self.critical_path_length = max(output_task_set, key=lambda task: task.eft).eft""",
+  """        self.critical_path_length = max(set(output_task_set), key=lambda task: task.eft).lft""")
+M("C09-random-tiebreak", "C09", "R9.2", PR,
+  """        task_list = sorted(task_list, key=lambda task: task.default_work_amount)""",
+  """        import random
+        task_list = sorted(task_list, key=lambda task: (task.default_work_amount, random.random()))""")
+B("benign-ready-set-to-list", ["C09", "C01", "C05"], WF,
+  """        none_task_set = set(filter(lambda task: task.state == BaseTaskState.NONE, self.task_list))""",
+  """        none_task_set = list(filter(lambda task: task.state == BaseTaskState.NONE, self.task_list))""")
